@@ -17,6 +17,7 @@ type caseC01 struct {
 	P    pt.Spec `json:"p"`
 	K    string  `json:"k"` // canonical scalar, hex
 	NilK bool    `json:"nil_k,omitempty"`
+	Hist int     `json:"hist,omitempty"` // > 0: the scalar object was used before and got k through a mutator
 }
 
 func kClasses(o *gen.Obs, k *big.Int) {
@@ -32,8 +33,11 @@ var nm1 = new(big.Int).Sub(ref.N, bigOne)
 var c01 = gen.Register(&gen.Check[caseC01]{
 	Name: "C01/reference",
 	Gen: func(t *rapid.T) caseC01 {
-		c := caseC01{P: pt.SpecGen(2, false).Draw(t, "p"), K: gen.H(gen.Int(ref.N).Draw(t, "k"))}
+		c := caseC01{P: pt.SpecGen(2, false).Draw(t, "p"), K: gen.H(gen.IntBoth(ref.N).Draw(t, "k"))}
 		c.NilK = rapid.IntRange(0, 39).Draw(t, "nil") == 0
+		if gen.Chance(t, "hist", 1, 3) {
+			c.Hist = 1 + gen.Pick(t, "installer", 6)
+		}
 		return c
 	},
 	Fixed: func() []caseC01 {
@@ -51,7 +55,7 @@ var c01 = gen.Register(&gen.Check[caseC01]{
 		out = append(out, caseC01{P: g, K: "00", NilK: true}, caseC01{P: gz, K: "00", NilK: true}, caseC01{P: id, K: "00", NilK: true})
 		return out
 	},
-	Required: []string{"k=0", "k=1", "k>=2^255", "k=n-1", "p:identity", "nil-scalar"},
+	Required: []string{"k=0", "k=1", "k>=2^255", "k=n-1", "p:identity", "nil-scalar", "used-scalar-object"},
 	Run: func(c caseC01, o *gen.Obs) error {
 		p, err := pt.Build(c.P)
 		if err != nil {
@@ -76,7 +80,8 @@ var c01 = gen.Register(&gen.Check[caseC01]{
 		}
 		kClasses(o, k)
 		o.NonTrivialIf(k.Cmp(bigOne) > 0 && !mp.Inf)
-		s := mkScalar(k)
+		s := mkScalarHist(k, c.Hist)
+		o.ClassIf(c.Hist > 0, "used-scalar-object")
 		s0 := s.S
 		want := ref.Mul(k, mp)
 		if got := p.E.Multiply(s); got != p.E {
@@ -150,7 +155,7 @@ var c01meta = gen.Register(&gen.Check[caseC01meta]{
 	Name:   "C01/metamorphic",
 	Weight: 2,
 	Gen: func(t *rapid.T) caseC01meta {
-		return caseC01meta{P: pt.SpecGen(2, false).Draw(t, "p"), A: gen.H(gen.Int(ref.N).Draw(t, "a")), B: gen.H(gen.Int(ref.N).Draw(t, "b"))}
+		return caseC01meta{P: pt.SpecGen(2, false).Draw(t, "p"), A: gen.H(gen.IntBoth(ref.N).Draw(t, "a")), B: gen.H(gen.IntBoth(ref.N).Draw(t, "b"))}
 	},
 	Required: []string{"k>=2^255"},
 	Run: func(c caseC01meta, o *gen.Obs) error {
